@@ -1,4 +1,29 @@
 #!/bin/bash
-# usage: seedmatrix.sh [jobs]  : runs every seeded change against its own property's check; prints one line per seed
+# usage: seedmatrix.sh [jobs]  : runs every seeded change against its own property's check (quick tier), prints one
+# line per seed and rewrites seeded/MATRIX.md (seed, property, what was changed, which rule instances reported it)
 J=${1:-6}
-cd /verif/seeded && ls -d */ | tr -d / | xargs -P $J -I{} sh -c '/verif/tools/seedtest.sh {} 2>&1 | tail -1'
+OUT=$(mktemp -d)
+cd /verif/seeded && ls -d */ | tr -d / | xargs -P $J -I{} sh -c "LINES_MAX=40 /verif/tools/seedtest.sh {} > $OUT/{}.log 2>&1; tail -1 $OUT/{}.log"
+python3 - "$OUT" <<'PY'
+import sys, os, json, re, glob
+out = sys.argv[1]
+rows = []
+for d in sorted(glob.glob('/verif/seeded/C*')):
+    sid = os.path.basename(d)
+    try:
+        meta = json.load(open(os.path.join(d, 'meta.json')))
+    except Exception:
+        meta = {}
+    log = open(os.path.join(out, sid + '.log')).read() if os.path.exists(os.path.join(out, sid + '.log')) else ''
+    rules = sorted(set(re.findall(r'rule=(C\d+\.\w+)', log)))
+    keys = re.findall(r'key=(\S.*)', log)
+    verdict = 'DETECTED' if 'DETECTED' in log else 'MISSED'
+    rows.append((sid, meta.get('property', sid[:3]), (meta.get('summary') or '').replace('|', '/').replace('\n', ' ')[:260], verdict, ', '.join(rules), '; '.join(k.strip()[:110] for k in keys[:3])))
+with open('/verif/seeded/MATRIX.md', 'w') as f:
+    f.write('# Seeded changes vs. the property\'s own check (quick tier)\n\nRegenerate with `tools/seedmatrix.sh`. Each change compiles, passes the 57 repository tests, and fails its demo test.\n\n')
+    f.write('| seed | property | change | verdict | rules reporting | violation keys |\n|---|---|---|---|---|---|\n')
+    for r in rows:
+        f.write('| %s | %s | %s | %s | %s | %s |\n' % r)
+print('%d seeds, %d detected' % (len(rows), sum(1 for r in rows if r[3] == 'DETECTED')))
+PY
+rm -rf $OUT
